@@ -112,7 +112,17 @@ type plainSim struct {
 	epoch        int64
 }
 
-func (p *plainSim) Yield(site, kind string) {}
+// lockSentinel: with a single goroutine, a lock that is found held will never be released.
+type lockSentinel struct{ site string }
+
+func (p *plainSim) Yield(site, kind string) {
+	if kind == "lockwait" && p.noGoroutines {
+		panic(lockSentinel{site})
+	}
+}
+
+// Scheduling makes the instrumented lock sites probe the lock (TryLock) before taking it, see Yield.
+func (p *plainSim) Scheduling() bool { return p.noGoroutines }
 func (p *plainSim) Spawn(site string) int {
 	if p.noGoroutines {
 		panic(needsScheduler{site})
